@@ -49,7 +49,7 @@ def run_stage(work, drive, st, seed, out, model_invs, model_props):
             mod = write_mc(work, "m" + tag, uni, emit=True, invariants=model_invs, props=model_props,
                            switches=st.kw.get("switches"))
             edges = work.path("edges-%s.ndjson" % tag)
-            r = run_model(work, mod, edges, workers=st.kw.get("workers", 8), timeout=st.kw.get("timeout", 3000))
+            r = run_model(work, mod, edges, workers=st.kw.get("workers", 4), timeout=st.kw.get("timeout", 3000))
         else:
             num, depth = st.kw.get("num", 20), st.kw.get("depth", 120)
             mod = write_mc(work, "s" + tag, uni, emit=False, max_depth=depth, ramp=st.kw.get("ramp", True),
@@ -59,12 +59,16 @@ def run_stage(work, drive, st, seed, out, model_invs, model_props):
         run = {"stage": st.label(), "states": r.states, "transitions": r.transitions, "emitted": r.edges,
                "wall_s": round(r.wall, 1), "universe_keys": len(uni["keys"])}
         if r.violation:
+            # The universe's transformed bytes come from the REAL encoder / collator: a broken encoder makes the
+            # model disagree with the oracle ranks. That is no verdict by itself: the transitions emitted so far
+            # are still replayed and the real trees are judged by the traces.
             run["violation"] = r.violation
             out.model_runs.append(run)
-            return ("model_violation", st, r)
-        if not r.ok:
+            out.model_violation = (st.label(), r.violation, r.out_tail[-1500:])
+        elif not r.ok:
             raise Infra("model run %s: %s" % (st.label(), r.error))
-        out.model_runs.append(run)
+        else:
+            out.model_runs.append(run)
         # de-duplicate transitions (TLC evaluates some actions twice)
         with open(edges) as f:
             lines = sorted(set(f.readlines()))
@@ -78,6 +82,8 @@ def run_stage(work, drive, st, seed, out, model_invs, model_props):
                 "-out", trace, "-battery", st.battery, "-stats", stats]
         if st.typ == "sim" and st.kw.get("every", True):
             args.append("-every")
+        elif st.typ == "sim":
+            args += ["-batevery", str(st.kw.get("batevery", 16))]
         run_drive(drive, args)
         os.remove(edges)
         return ("trace", st, trace, stats, run)
@@ -86,6 +92,12 @@ def run_stage(work, drive, st, seed, out, model_invs, model_props):
                 "-battery", st.battery, "-stats", stats, "-n", str(st.kw.get("n", 10)), "-len", str(st.kw.get("len", 60)),
                 "-batevery", str(st.kw.get("batevery", 1)), "-dumpevery", str(st.kw.get("dumpevery", 1))]
         run_drive(st.kw.get("drive", drive), args)
+        return ("trace", st, trace, stats, None)
+    if st.typ == "arena":
+        # []byte keys handed over in caller-owned buffers (sub-slices, records with adjacent fields, scanner buffers)
+        args = ["arena", "-kind", st.kind, "-u", st.uname, "-seed", str(useed), "-out", trace, "-battery", st.battery, "-stats", stats,
+                "-n", str(st.kw.get("n", 4)), "-len", str(st.kw.get("len", 50))]
+        run_drive(drive, args)
         return ("trace", st, trace, stats, None)
     raise Infra("unknown stage type " + st.typ)
 
@@ -96,19 +108,22 @@ def tree_pipeline(work, prop, stages, invariants, seed, model_invs=None, model_p
     drive = drive or build_harness(work)
     jobs = jobs or NCPU
     # TLC model runs are heavy (8 workers each): at most 2 at a time; the rest is cheap
-    heavy = [s for s in stages if s.typ in ("model", "sim")]
+    models = [s for s in stages if s.typ == "model"]
+    sims = [s for s in stages if s.typ == "sim"]
     light = [s for s in stages if s.typ not in ("model", "sim")]
     results = []
-    with cf.ThreadPoolExecutor(max_workers=2) as ex_h, cf.ThreadPoolExecutor(max_workers=jobs) as ex_l:
-        futs = [ex_h.submit(run_stage, work, drive, s, seed, out, model_invs, model_props) for s in heavy]
+    # TLC model runs use several workers each: 3 at a time; simulations are single-threaded: 6 at a time
+    with cf.ThreadPoolExecutor(max_workers=3) as ex_m, cf.ThreadPoolExecutor(max_workers=6) as ex_s, \
+            cf.ThreadPoolExecutor(max_workers=4) as ex_l:
+        # longest simulations first
+        sims.sort(key=lambda s: -s.kw.get("depth", 0) * (3 if s.uname in ("fan1", "fan1x", "fanp") else 1))
+        futs = [ex_s.submit(run_stage, work, drive, s, seed, out, model_invs, model_props) for s in sims]
+        futs += [ex_m.submit(run_stage, work, drive, s, seed, out, model_invs, model_props) for s in models]
         futs += [ex_l.submit(run_stage, work, drive, s, seed, out, model_invs, model_props) for s in light]
         for f in futs:
             results.append(f.result())
     files = []
     for r in results:
-        if r[0] == "model_violation":
-            out.model_violation = (r[1].label(), r[2].violation, r[2].out_tail)
-            continue
         _, st, trace, stats, run = r
         s = json.load(open(stats))
         out.trace_lines += s["lines"]
